@@ -313,10 +313,10 @@ CSV_TEXT_OPTIONS = {
 }
 
 
-def rule_t8(ctx) -> None:
+def rule_t8(ctx, rule_id: str = "C02-T8") -> None:
     """The command line front ends read the reaction column as it is written: no CSV option that consumes or rewrites
     characters of a cell (SMILES uses `\\`, `#`, `/`, `.`, `@`, brackets)."""
-    ctx.rule("C02-T8", "CSV readers of the front ends pass no option that rewrites cell text", 2)
+    ctx.rule(rule_id, "CSV readers of the front ends pass no option that rewrites cell text", 2)
     prog = ctx.prog
     n = 0
     for q, f in sorted(prog.functions.items()):
@@ -334,9 +334,9 @@ def rule_t8(ctx) -> None:
                 bad.append("quotechar")
             if any(k.arg in ("sep", "delimiter") and isinstance(k.value, ast.Constant) and isinstance(k.value.value, str) and any(ch in k.value.value for ch in ".=#@/\\[]()+-:") for k in c.keywords):
                 bad.append("sep")
-            ctx.instance("C02-T8", "%s: %s" % (q.split("synrbl.", 1)[-1], unparse(c)[:60]), f.loc(c), ok=not bad)
+            ctx.instance(rule_id, "%s: %s" % (q.split("synrbl.", 1)[-1], unparse(c)[:60]), f.loc(c), ok=not bad)
             if bad:
-                ctx.finding("C02-T8", "%s:csv-option:%s" % (q.split("synrbl.", 1)[-1], "+".join(sorted(bad))), f.loc(c), "the reaction column is read with %s: characters that belong to the SMILES are consumed by the parser (%s), so the molecules that reach the Balancer are not the given ones" % (", ".join(sorted(bad)), "; ".join(CSV_TEXT_OPTIONS.get(b, "") for b in bad if CSV_TEXT_OPTIONS.get(b))))
+                ctx.finding(rule_id, "%s:csv-option:%s" % (q.split("synrbl.", 1)[-1], "+".join(sorted(bad))), f.loc(c), "the reaction column is read with %s: characters that belong to the SMILES are consumed by the parser (%s), so the molecules that reach the Balancer are not the given ones" % (", ".join(sorted(bad)), "; ".join(CSV_TEXT_OPTIONS.get(b, "") for b in bad if CSV_TEXT_OPTIONS.get(b))))
     ctx.require(n >= 2, "fewer than 2 CSV read sites found in SynCmd / batching (%d)" % n)
 
 
